@@ -6,7 +6,7 @@ import (
 	"github.com/evolbioinfo/gotree/tree"
 )
 
-var c09cutoffs = []float64{0.5, 0.6, 2.0 / 3.0, 0.75, 0.9, 1.0}
+var c09cutoffs = []float64{0.5, 1.0, 2.0 / 3.0, 0.6, 0.75, 0.9}
 
 type c09freq struct {
 	count int
@@ -21,7 +21,7 @@ func H_C09_consensus() {
 	m := sxParam("m", 2)
 	rootedMode := sxParam("rootedmode", 0)
 	binary := sxParam("binary", 0) == 1
-	cutoff := c09cutoffs[sxChoose("cutoff", len(c09cutoffs))]
+	cutoff := c09cutoffs[sxChoose("cutoff", sxParam("ncutoffs", len(c09cutoffs)))]
 	trees := make([]*tree.Tree, m)
 	table := map[uint64]*c09freq{}
 	for i := 0; i < m; i++ {
